@@ -190,6 +190,9 @@ class Transportation1dSorter {
  private:
   std::vector<int> srcOrder;
   std::vector<int> snkOrder;
+  // Sink given to each source when it takes no part in the problem (zero
+  // supply): the closest sink with non-zero demand
+  std::vector<int> defaultSink;
 };
 
 /**
